@@ -162,11 +162,14 @@ def emit_order(F):
         if s2["k"] == "Let" and s2["pat"].get("k") == "Binding" and s2["pat"]["name"] == "at_end":
             at_end_hid = s2["pat"]["hid"]
 
+    from rules.emit import encoder_roles
+    roles = encoder_roles(F)
+
     def classify(n):
         if n.get("k") == "Call" and n.get("callee"):
-            nm = n["callee"].split("::")[-1]
-            if nm in ("update_ids_and_encode", "encode") and "encode_internal" in n["callee"]:
-                src = _prov_field(n["args"][0], binds)
+            if roles.get(n["callee"]) in ("ENC", "FIXENC") and n["args"]:
+                opa = next((a_ for a_ in n["args"] if "Operator" in (a_.get("ty") or "")), n["args"][0])
+                src = _prov_field(opa, binds)
                 return "emit:%s" % src
         if n.get("k") == "Path" and n.get("res", {}).get("hid") == at_end_hid and at_end_hid is not None:
             return None
@@ -532,3 +535,62 @@ def finish_resets_priority_mode(F):
     if not ok:
         r.violate("%s | wrong flag" % fin["path"], F.loc(fin), "inject gives priority to `%s.current_mode`, but finish_instr resets %s: after func_entry()/func_exit() … finish_instr(), later instruction-level injections are still filed as function-level code" % (prio, sorted(resets) or "nothing"))
     return r
+
+
+def mode_case_callbacks(F, mode_adt, M):
+    """(select_arms, inline_calls) for vlib.paths.paths that prune a function's paths to those taken when the current
+    instrumentation mode is M — whether the mode is matched as `match self.current_mode { Some(M) => .. }`, bound first
+    (`let Some(mode) = self.current_mode else {..}; match mode {..}`), or handed to local helpers taking a mode parameter."""
+    subj = set()
+    for f_ in F.fns:
+        for pm in f_.get("params", []) or []:
+            if (pm.get("ty") or "").replace("&", "").strip() == mode_adt and pm["pat"].get("k") == "Binding":
+                subj.add(pm["pat"]["hid"])
+        if f_.get("body") is None:
+            continue
+        for n in walk(f_["body"]):
+            src = pat = None
+            if n.get("k") == "Let" and "init" in n:
+                src, pat = n["init"], n["pat"]
+            elif n.get("k") == "LetExpr":
+                src, pat = n["init"], n["pat"]
+            if src is not None and "current_mode" in (place_path(src) or ""):
+                for b in walk(pat):
+                    if b.get("k") == "Binding":
+                        subj.add(b["hid"])
+
+    def is_subj(e):
+        e = peel(e)
+        if isinstance(e, dict) and e.get("k") == "Path" and e.get("res", {}).get("hid") in subj:
+            return True
+        return isinstance(e, dict) and "current_mode" in (place_path(e) or "")
+
+    def select_arms(m):
+        if not is_subj(m.get("scrut") or {}):
+            return None
+        for a2 in m["arms"]:
+            for b in walk(a2["pat"]):
+                if b.get("k") == "Binding":
+                    subj.add(b["hid"])  # `Some(mode) => match mode {..}`
+        out = []
+        for i, arm in enumerate(m["arms"]):
+            ms = _mode_variants_in(arm["pat"], mode_adt)
+            none = any(x.get("variant") == "None" for x in walk(arm["pat"])) and not ms
+            if M in ms:
+                return [i]
+            if not ms and not none:
+                out.append(i)   # wildcard / binding arm
+                break
+        return out
+
+    def inline_calls(c):
+        callee = c.get("inst") or c.get("callee")
+        t = F.by_path.get(callee or "")
+        if not t or len(t) != 1 or t[0].get("body") is None:
+            return None
+        args = ([c["recv"]] if c.get("k") == "MethodCall" else []) + list(c.get("args", []))
+        if any(is_subj(a_) for a_ in args):
+            return t[0]["body"]
+        return None
+
+    return select_arms, inline_calls
